@@ -1,41 +1,27 @@
 // C15: order-insensitive aggregates ignore line order and how the input is split.
 use sqlgrep::model::Value;
 
-use crate::c04::join_lines;
+use crate::c04::{gen_typed_input, join_lines, C04_DEF};
 use crate::engine_run::*;
-use crate::queries::*;
 use crate::run::{Params, Run};
 use crate::runq::{run_engine_batch, RowsOutcome};
 use crate::util::Rng;
 
-const KEYS: &[&str] = &["a", "b", "c", "ab"];
-// REAL values whose sums, squares and sums of squares are exactly representable
-const REALS: &[&str] = &["0.5", "1.5", "-2.25", "100", "3", "8", "0.25"];
-
-fn line(rng: &mut Rng) -> String {
-    if rng.chance(1, 12) { return (*rng.pick(&["", "garbage", ";;;;;"])).to_owned(); }
-    let f = |rng: &mut Rng, s: String| if rng.chance(1, 5) { String::new() } else { s };
-    let k = (*rng.pick(KEYS)).to_owned();
-    let v = rng.range(-20, 40).to_string();
-    let w = rng.range(-3, 3).to_string();
-    let r = (*rng.pick(REALS)).to_owned();
-    let s = (*rng.pick(&["x", "y", "z"])).to_owned();
-    format!("{};{};{};{};{};", f(rng, k), f(rng, v), f(rng, w), f(rng, r), f(rng, s))
-}
-
+/// every order-insensitive aggregate over every argument type it accepts (INT, REAL, INTERVAL sums; any comparable type
+/// for MIN/MAX/PERCENTILE/COUNT DISTINCT; BOOLEAN column and predicates for BOOL_AND/OR)
 fn agg(rng: &mut Rng) -> String {
-    match rng.below(13) {
+    match rng.below(14) {
         0 => "COUNT(*)".to_owned(),
-        1 => format!("COUNT({})", rng.pick(&["v", "w", "k", "r"])),
-        2 => format!("COUNT(DISTINCT {})", rng.pick(&["v", "w", "k"])),
-        3 | 4 => format!("SUM({})", rng.pick(&["v", "w", "r", "v * 2", "v + w"])),
-        5 => format!("MIN({})", rng.pick(&["v", "w", "k", "s", "r"])),
-        6 => format!("MAX({})", rng.pick(&["v", "w", "k", "s", "r"])),
-        7 => format!("AVG({})", rng.pick(&["v", "w", "r"])),
-        8 => format!("{}({})", rng.pick(&["STDDEV", "VARIANCE"]), rng.pick(&["v", "w", "r"])),
-        9 => format!("PERCENTILE({}, {})", rng.pick(&["v", "w", "k"]), rng.pick(&["0.0", "0.5", "0.9", "1.0"])),
-        10 => format!("BOOL_AND({})", rng.pick(&["v > 0", "w = 1", "k = 'a'"])),
-        11 => format!("BOOL_OR({})", rng.pick(&["v > 30", "w = 1", "k = 'a'"])),
+        1 => format!("COUNT({})", rng.pick(&["v", "w", "k", "r", "iv", "ts", "b"])),
+        2 | 3 => format!("COUNT(DISTINCT {})", rng.pick(&["v", "w", "k", "iv", "ts", "s", "v", "b"])),
+        4 | 5 => format!("SUM({})", rng.pick(&["v", "w", "r", "v * 2", "v + w", "iv", "iv"])),
+        6 => format!("MIN({})", rng.pick(&["v", "w", "k", "s", "r", "iv", "ts", "b"])),
+        7 => format!("MAX({})", rng.pick(&["v", "w", "k", "s", "r", "iv", "ts", "b"])),
+        8 => format!("AVG({})", rng.pick(&["v", "w", "r", "iv"])),
+        9 => format!("{}({})", rng.pick(&["STDDEV", "VARIANCE"]), rng.pick(&["v", "w", "r"])),
+        10 => format!("PERCENTILE({}, {})", rng.pick(&["v", "w", "k", "iv", "ts", "s"]), rng.pick(&["0.0", "0.5", "0.9", "1.0"])),
+        11 => format!("BOOL_AND({})", rng.pick(&["v > 0", "w = 1", "k = 'a'", "b"])),
+        12 => format!("BOOL_OR({})", rng.pick(&["v > 30", "w = 1", "k = 'a'", "b"])),
         _ => "COUNT(*) + 1".to_owned(),
     }
 }
@@ -48,7 +34,21 @@ fn query(rng: &mut Rng) -> String {
     let mut q = format!("SELECT {} FROM t", items.join(", "));
     if rng.chance(1, 3) { q.push_str(&format!(" WHERE {}", rng.pick(&["v > 0", "w != 0", "k != 'c'", "r > 1.0"]))); }
     if !group.is_empty() { q.push_str(&format!(" GROUP BY {}", group.join(", "))); }
-    if rng.chance(1, 4) { q.push_str(&format!(" HAVING {} {} {}", rng.pick(&["COUNT(*)", "SUM(v)", "MAX(w)", "MIN(v)"]), rng.pick(&[">", ">=", "<"]), rng.pick(&["0", "1", "2"]))); }
+    if rng.chance(1, 3) {
+        // boolean combinations, with the same aggregate used more than once (range conditions, alternatives)
+        let aggs = ["COUNT(*)", "SUM(v)", "MAX(w)", "MIN(v)", "COUNT(v)", "COUNT(DISTINCT k)"];
+        let a = *rng.pick(&aggs);
+        let b = *rng.pick(&aggs);
+        let cmp = |rng: &mut Rng, x: &str| format!("{} {} {}", x, rng.pick(&[">", ">=", "<", "<=", "="]), rng.pick(&["0", "1", "2", "3", "5"]));
+        let h = match rng.below(6) {
+            0 | 1 => cmp(rng, a),
+            2 => { let lo = rng.below(3); format!("{} >= {} AND {} <= {}", a, lo, a, lo + 1 + rng.below(3)) }
+            3 => format!("{} AND {}", cmp(rng, a), cmp(rng, b)),
+            4 => format!("{} OR {}", cmp(rng, a), cmp(rng, a)),
+            _ => format!("NOT ({}) AND {}", cmp(rng, a), cmp(rng, b)),
+        };
+        q.push_str(&format!(" HAVING {}", h));
+    }
     q
 }
 
@@ -58,19 +58,25 @@ pub fn run(p: &Params) -> Run {
     let n = p.n(1500, 60_000);
     for _ in 0..n {
         let q = query(&mut rng);
-        let prepared = match prepare(MAIN_DEF, &q) { Ok(p) => p, Err(_) => { run.count("rejected"); continue; } };
-        let nl = rng.below(25);
-        let lines: Vec<String> = (0..nl).map(|_| line(&mut rng)).collect();
+        let prepared = match prepare(C04_DEF, &q) { Ok(p) => p, Err(_) => { run.count("rejected"); continue; } };
+        // small inputs over several groups, or (1 in 5) 40-150 lines concentrated in one or two groups with arguments from
+        // pools of 17-65 distinct values (many repetitions; small-buffer sizes 8 / 16 / 32 / 64 in mind)
+        let large = rng.chance(1, 5);
+        let lines: Vec<String> = gen_typed_input(&mut rng, large);
         let base = run_files(&prepared, &[join_lines(&lines)]);
         let desc = format!("query={} input={:?}", q, lines);
         if let Some(case) = batch_case(&prepared, b"", &[join_lines(&lines)], None) {
             run.case_with_desc(case, base.wire(), format!("perm:{}:g{}:h{}:r{}", base.status, q.contains("GROUP BY") as u8, q.contains("HAVING") as u8, base.records().len().min(4)), desc.clone());
         }
-        // permutations of the lines
-        for _ in 0..3 {
+        // permutations of the lines: sorted, reversed, shuffled
+        for round in 0..4 {
             run.oracle_checks += 1;
             let mut perm = lines.clone();
-            rng.shuffle(&mut perm);
+            match round {
+                0 => perm.sort(),
+                1 => { perm.sort(); perm.reverse(); }
+                _ => rng.shuffle(&mut perm),
+            }
             let other = run_files(&prepared, &[join_lines(&perm)]);
             if other.status != base.status || other.records() != base.records() {
                 run.fail(format!("{} permuted={:?}", desc, perm), "permutation-changes-result", format!("{:?} vs {:?}", base.records(), other.records()));
@@ -83,13 +89,13 @@ pub fn run(p: &Params) -> Run {
     for _ in 0..m {
         let with_key = rng.chance(3, 4);
         let wher = if rng.chance(1, 3) { " WHERE v > 0" } else { "" };
-        let q = if with_key { format!("SELECT k, COUNT(*), COUNT(v), SUM(v), MIN(v), MAX(w), SUM(r), MIN(k), MAX(s) FROM t{} GROUP BY k", wher) } else { format!("SELECT COUNT(*), COUNT(v), SUM(v), MIN(v), MAX(w), SUM(r), MIN(k), MAX(s) FROM t{}", wher) };
-        let nl = rng.below(20);
-        let lines: Vec<String> = (0..nl).map(|_| line(&mut rng)).collect();
+        let q = if with_key { format!("SELECT k, COUNT(*), COUNT(v), SUM(v), MIN(v), MAX(w), SUM(r), MIN(k), MAX(s), SUM(iv), MIN(ts), MAX(iv), COUNT(iv) FROM t{} GROUP BY k", wher) } else { format!("SELECT COUNT(*), COUNT(v), SUM(v), MIN(v), MAX(w), SUM(r), MIN(k), MAX(s), SUM(iv), MIN(ts), MAX(iv), COUNT(iv) FROM t{}", wher) };
+        let large_split = rng.chance(1, 8);
+        let lines: Vec<String> = gen_typed_input(&mut rng, large_split);
         let cut = rng.below(lines.len() + 1);
-        let whole = run_engine_batch(MAIN_DEF, &q, &lines);
-        let a = run_engine_batch(MAIN_DEF, &q, &lines[..cut].to_vec());
-        let b = run_engine_batch(MAIN_DEF, &q, &lines[cut..].to_vec());
+        let whole = run_engine_batch(C04_DEF, &q, &lines);
+        let a = run_engine_batch(C04_DEF, &q, &lines[..cut].to_vec());
+        let b = run_engine_batch(C04_DEF, &q, &lines[cut..].to_vec());
         run.oracle_checks += 1;
         let desc = format!("query={} input={:?} cut={}", q, lines, cut);
         match (whole, a, b) {
@@ -104,7 +110,7 @@ pub fn run(p: &Params) -> Run {
             _ => run.count("split-error"),
         }
     }
-    run.notes.push("INT arguments in -20..40 and REAL arguments whose sums/squares are exact; -0.0 and NaN excluded (they are equal to 0.0 / incomparable but print differently)".to_owned());
+    run.notes.push("table with TEXT/INT/REAL/BOOLEAN/INTERVAL/TIMESTAMP columns; small INT arguments and REAL arguments whose sums/squares are exact; -0.0 and NaN excluded (they are equal to 0.0 / incomparable but print differently); 1 in 5 inputs has 40-150 lines in one or two groups with 17-65 distinct argument values; permutations: sorted, reversed, 2 shuffles; HAVING as boolean combinations with repeated aggregates".to_owned());
     run
 }
 
@@ -113,6 +119,7 @@ fn add(a: &Value, b: &Value) -> Value {
         (Value::Null, x) | (x, Value::Null) => x.clone(),
         (Value::Int(x), Value::Int(y)) => Value::Int(x + y),
         (Value::Float(x), Value::Float(y)) => Value::Float(sqlgrep::model::Float(x.0 + y.0)),
+        (Value::Interval(x), Value::Interval(y)) => Value::Interval(*x + *y),
         (x, _) => x.clone(),
     }
 }
@@ -133,6 +140,10 @@ fn merge(with_key: bool, a: &[Vec<Value>], b: &[Vec<Value>]) -> Vec<Vec<Value>> 
         r.push(add(&x[off + 5], &y[off + 5]));
         r.push(least(&x[off + 6], &y[off + 6]));
         r.push(greatest(&x[off + 7], &y[off + 7]));
+        r.push(add(&x[off + 8], &y[off + 8]));
+        r.push(least(&x[off + 9], &y[off + 9]));
+        r.push(greatest(&x[off + 10], &y[off + 10]));
+        r.push(add(&x[off + 11], &y[off + 11]));
         r
     };
     if !with_key {
